@@ -249,7 +249,7 @@ REACTIONS = ["reply", "dup", "late", "never", "cb_before", "cb_after", "other_se
 
 class Check(PropertyCheck):
     pid = "C06"
-    gen_files = ["GenCmd", "GenProto"]
+    gen_files = ["GenCmd", "GenProto", "GenEzspFn", "GenProtoFn"]
     model_imports = ["lib.EzspTypes", "gen.GenCmd", "gen.GenProto", "model.EzspCodec", "model.EzspProto", "model.EzspCases"]
     run_expr = "run_c06_case_from"
     case_type = "(N * list pevent)"
